@@ -204,6 +204,7 @@ class Gen:
     dup     : one class declares a component twice
     redecl  : extends clauses redeclare components (component_clause1 inside an extends modification)
     quirk   : duplicate nested class names / clashing imports (only model vs code, no direct expectation)
+    imp3    : import lists with three or more names (inputs of the open finding C04-F4)
     """
 
     def __init__(self, rng, stream="main", size=1.0):
@@ -283,7 +284,7 @@ class Gen:
             return {"t": "imp", "form": "short", "path": path, "short": n, "names": []}
         if form == "star":
             return {"t": "imp", "form": "star", "path": path, "short": "", "names": []}
-        k = rng.randint(1, 2)                            # >2 names: import_list nests (separate observation)
+        k = rng.randint(3, 4) if self.stream == "imp3" else rng.randint(1, 2)   # > 2 names: finding C04-F4
         if len(pool) < k:
             return None
         ns = pool[:k] if self.stream == "quirk" else rng.sample(pool, k)
